@@ -595,6 +595,33 @@ read_tun(int tun_fd, char *buf, size_t len)
 }
 #endif
 
+/* Returns 1 if the string is exactly four decimal numbers (0-255)
+ * separated by single dots, and nothing else. */
+static int
+is_dotted_quad(const char *s)
+{
+	int part;
+
+	for (part = 0; part < 4; part++) {
+		int digits = 0;
+		int value = 0;
+
+		while (*s >= '0' && *s <= '9' && digits < 3) {
+			value = value * 10 + (*s - '0');
+			digits++;
+			s++;
+		}
+		if (digits == 0 || value > 255)
+			return 0;
+		if (part < 3) {
+			if (*s != '.')
+				return 0;
+			s++;
+		}
+	}
+	return *s == '\0';
+}
+
 int
 tun_setip(const char *ip, const char *other_ip, int netbits)
 {
@@ -624,8 +651,14 @@ tun_setip(const char *ip, const char *other_ip, int netbits)
 	netmask <<= (32 - netbits);
 	net.s_addr = htonl(netmask);
 
-	if (inet_addr(ip) == INADDR_NONE) {
+	/* The addresses end up in a shell command line and may come from the
+	 * other end of the tunnel: inet_addr() alone accepts trailing text. */
+	if (!is_dotted_quad(ip) || inet_addr(ip) == INADDR_NONE) {
 		fprintf(stderr, "Invalid IP: %s!\n", ip);
+		return 1;
+	}
+	if (other_ip != NULL && !is_dotted_quad(other_ip)) {
+		fprintf(stderr, "Invalid IP: %s!\n", other_ip);
 		return 1;
 	}
 #ifndef WINDOWS32
